@@ -48,8 +48,8 @@ SPEC = {
         "CNI 0xDC3 / 0xDC1 / 0xDC2 (ARD/ZDF special case) are left to C12",
     ],
     "jobs": [
-        _job("hist", "hist", {"quick": 240000, "thorough": 5000000}),
-        _job("xds", "xds", {"quick": 100000, "thorough": 2000000}),
+        _job("hist", "hist", {"quick": 160000, "thorough": 5000000}),
+        _job("xds", "xds", {"quick": 80000, "thorough": 2000000}),
         _job("exh", "exh", _EXH, {"p0": {"quick": 4, "thorough": 6}}),
     ],
     "min_distinct": 600,
